@@ -15,8 +15,7 @@ pub const ENTRY: Entry = Entry {
     id: "C10",
     variants: &["batch", "nobatch"],
     level: "model_checking",
-    rule: "explicit-state closure (stateright BFS, 1 and 16 threads compared): roots = non-square windows with asymmetric non-zero \
-           offsets x 8 initial orientations x 2 colour orders x 4 refresh orders on the external model, plus every built-in model \
+    rule: "explicit-state closure (stateright BFS, 1 and 16 threads compared): roots = non-square windows with asymmetric offsets (also zero offsets with a window smaller than the framebuffer) x 8 initial orientations x 2 colour orders x 4 refresh orders on the external model, plus every built-in model \
            with non-default colour/refresh order (both `batch` settings); actions = set_orientation(o) for all 8 values; \
            every transition replays the history on a fresh real display. State key = private driver state (hook) + device MADCTL. \
            Invariants in every state: orientation()/size()/bounding_box() agree with the last orientation set; device MADCTL == \
@@ -163,11 +162,12 @@ impl Sys for Sys10 {
 
 pub fn roots(quick: bool) -> Vec<Cfg> {
     let shapes: Vec<(u16, u16, Vec<(u16, u16, u16, u16)>)> = if quick {
-        vec![(4, 3, vec![(2, 1, 1, 2), (3, 2, 1, 0)]), (3, 5, vec![(2, 3, 0, 2), (1, 4, 2, 0)]), (2, 2, vec![(1, 2, 1, 0), (2, 2, 0, 0)])]
+        // (also windows smaller than the framebuffer that start at its origin: the margins are asymmetric although the offset is zero)
+        vec![(4, 3, vec![(2, 1, 1, 2), (3, 2, 1, 0), (2, 2, 0, 0)]), (3, 5, vec![(2, 3, 0, 2), (1, 4, 2, 0), (2, 3, 0, 0)]), (2, 2, vec![(1, 2, 1, 0), (2, 2, 0, 0)])]
     } else {
         vec![
-            (4, 3, vec![(2, 1, 1, 2), (3, 2, 1, 0), (4, 3, 0, 0), (1, 3, 3, 0)]),
-            (3, 5, vec![(2, 3, 0, 2), (1, 4, 2, 0), (3, 5, 0, 0)]),
+            (4, 3, vec![(2, 1, 1, 2), (3, 2, 1, 0), (4, 3, 0, 0), (1, 3, 3, 0), (2, 2, 0, 0), (3, 3, 0, 0)]),
+            (3, 5, vec![(2, 3, 0, 2), (1, 4, 2, 0), (3, 5, 0, 0), (2, 3, 0, 0), (3, 2, 0, 0)]),
             (2, 2, vec![(1, 2, 1, 0), (2, 2, 0, 0), (1, 1, 1, 1)]),
             (5, 4, vec![(2, 3, 3, 1), (4, 1, 0, 2)]),
             (8, 6, vec![(4, 3, 2, 1), (5, 2, 3, 4)]),
@@ -211,6 +211,10 @@ pub fn roots(quick: bool) -> Vec<Cfg> {
         let tr = if info.supports[0] { Transport::RecSerial } else { Transport::RecPar8 };
         for (o, refresh) in [(0u8, 1u8), (5, 2), (2, 3)] {
             v.push(Cfg { model: ModelId::Builtin(i as u8), tr, win: Some((6, 5, fw - 9, 3)), orient: o, bgr: true, invert: false, refresh, rst: false, flags: 0 });
+            if o == 0 {
+                // the common "smaller panel at the framebuffer origin" wiring (e.g. 240x240 glass on a 240x320 controller)
+                v.push(Cfg { model: ModelId::Builtin(i as u8), tr, win: Some((6, 5, 0, 0)), orient: o, bgr: false, invert: false, refresh: 0, rst: false, flags: 0 });
+            }
         }
     }
     v
